@@ -339,7 +339,7 @@ def build_defaults(tier, seed):
     """Default expressions that sit on the other side of a bound before / after sanitising (C03): default() must agree
     with the constructor applied to the written expression, i.e. sanitize first."""
     b = Builder("q", tier, seed)
-    tags = ["C03", "C01"]
+    tags = ["C03", "C01", "C06"]
     cases = [
         # (inner, sanitizer body, validator builder, default text, denoted raw default)
         ("i32", "x.wrapping_add(7)", ("less_or_equal", 100), "95", 95),      # valid as written, invalid after sanitising -> must panic
@@ -366,7 +366,7 @@ def build_defaults(tier, seed):
                 else:
                     d.support.append("const DFLT: %s = %s;" % (ty, dtxt))
                     d.default = ("DFLT", dden)
-                d.derives = ["Debug", "Default", "TryFrom"]
+                d.derives = ["Debug", "Default", "TryFrom", "FromStr"]
     fcases = [("f64", "x * 2.0", ("less", "10.0", Fraction(10)), "6.0", Fraction(6)), ("f64", "x * 2.0", ("less", "10.0", Fraction(10)), "4.0", Fraction(4)),
               ("f32", "x.abs()", ("greater_or_equal", "0.0", Fraction(0)), "-1.5", Fraction(-3, 2)), ("f64", "x - 1.0", ("greater", "0.0", Fraction(0)), "1.0", Fraction(1)),
               ("f64", "if x.is_nan() { 0.0 } else { x }", ("greater_or_equal", "0.0", Fraction(0)), "f64::NAN", None)]
@@ -387,7 +387,7 @@ def build_defaults(tier, seed):
             if hv:
                 d.vals.append(int_bound("greater", "i32", -100, "lit", d))
             d.default = (dtxt, dden)
-            d.derives = ["Debug", "Default", "TryFrom"]
+            d.derives = ["Debug", "Default", "TryFrom", "FromStr"]
     for (dtxt, ex, sup) in (("-0.5 + OFFSET", Fraction(1, 2), "const OFFSET: f64 = 1.0;"), ("-A * 2.0 - 1.0", Fraction(-4), "const A: f64 = 1.5;")):
         d = b.new(inner_float("f64"), tags=list(tags))
         d.support.append(sup)
@@ -401,6 +401,26 @@ def build_defaults(tier, seed):
         d.vals.append(int_bound("less", ty, bound, "lit", d))
         d.default = ("next_ticket()", 0)
         d.derives = ["Debug", "Default"]
+    # bounds read from a run-time cell: the rule in force at each call is the one the expression denotes at that call
+    cell = "static LIMIT_CELL: ::core::sync::atomic::AtomicI64 = ::core::sync::atomic::AtomicI64::new(10);\nfn limit() -> %s { LIMIT_CELL.load(::core::sync::atomic::Ordering::SeqCst) as %s }"
+    pk = "poke=10,20,5,-3,10" 
+    for (inner, ty, kinds) in ((inner_int("i32"), "i32", ("less_or_equal", "greater", "less", "greater_or_equal")), (inner_int("u8"), "u8", ("less", "greater_or_equal")),
+                               (inner_int("i64"), "i64", ("greater",)), (inner_float("f64"), "f64", ("less_or_equal", "greater")), (inner_float("f32"), "f32", ("less",))):
+        for k in kinds:
+            for (btxt, note) in (("limit()", ""), ("{ limit() }", ""), ("limit() + 0 as %s" % ty, "")):
+                d = b.new(inner, tags=["C01", "C02", pk if ty != "u8" else "poke=10,20,5,0,10"])
+                d.support.append(cell % (ty, ty))
+                if inner.fam == "float":
+                    d.vals.append(Vld(k, btxt, float_denote(ty, Fraction(10))))
+                else:
+                    d.vals.append(Vld(k, btxt, 10))
+                d.derives = ["Debug", "TryFrom"]
+    for k in ("len_char_max", "len_char_min"):
+        for btxt in ("limit()", "{ limit() }"):
+            d = b.new(inner_string(), tags=["C01", "C02", "poke=10,20,5,0,10"])
+            d.support.append(cell % ("usize", "usize"))
+            d.vals.append(Vld(k, btxt, 10))
+            d.derives = ["Debug", "TryFrom"]
     scases = [("format!(\"{x}{x}\")", [("len_char_max", 5)], "abc"), ("format!(\"{x}{x}\")", [("len_char_max", 6)], "abc"),
               ("x.replace('x', \" \")", [("not_empty", None)], "xx"), ("x.chars().take(3).collect()", [("len_char_max", 3)], "abcdef")]
     for (body, vs, dflt) in scases:
